@@ -28,8 +28,11 @@ CONSTANTS MaxFun,            \* evaluation budget
           NdirsInit,         \* growing.ndirs_initial (0 = npt-1, i.e. a full initial set); with fewer directions the set GROWS by one point per iteration
           NewDirs,           \* growing.num_new_dirns_each_iter: while the set is growing, every iteration (and every safety step) additionally evaluates this many new
                              \* directions; the trust-region point then REPLACES a point instead of being appended (0 = the default for m >= n)
+          GrowGeom,          \* growing.do_geom_steps: while the set is growing the iteration still ends with the usual ratio split (geometry check, reduction of
+                             \* rho) instead of going straight on
           WithNoise,         \* noise.quit_on_noise_level: "all values within noise level" may end the run / trigger a restart at the top of an iteration
           RegSteps,          \* regression.num_extra_steps: geometry steps on the furthest points after a successful trust-region step
+          RegInc,            \* regression.increase_num_extra_steps_with_restart: that many more of them per restart so far
           WithHuge,          \* TRUE: an objective value of +Inf may come from FINITE residuals whose squares overflow (|r| ~ 1e200): the fit then succeeds although
                              \* a slot holds +Inf.  FALSE: +Inf always means an infinite residual (the fit fails)
           NoisyObjective,    \* TRUE: evaluating the same point twice may give different values (C04 then claims nothing; a hard restart that re-evaluates
@@ -74,6 +77,7 @@ Restartable(e) == \/ e.flag \in {"tr_increase", "linalg", "slow", "eval_error", 
 \* growing phase (solver.py:244, 269-282): the initial set has fewer points than npt; "finished growing" latches once npt points are present
 NdirsOfRun == IF NdirsInit = 0 THEN npt - 1 ELSE MinI(NdirsInit + nruns, npt - 1)     \* restarts.hard.increase_ndirs_initial_amt = 1 (default)
 Growing == Len(mdl.slots) < mdl.numpts
+RegNow == RegSteps + nruns * RegInc
 
 Init == /\ pc = "x0eval" /\ nf = 0 /\ nx = 0 /\ nruns = 0 /\ mdl = NoModel /\ rho = RhoLevels /\ rhoendL = 0 /\ rhoendC = 0
         /\ softLSR = 0 /\ softLastFopt = 0 /\ hardLSR = 0 /\ best = NoBest /\ exitInfo = NoExit /\ ptval = <<>> /\ ptns = <<>>
@@ -193,7 +197,7 @@ Safety ==
                 /\ Counted(req, v, v)
                 /\ mdl' = IF Ran(req) > 0 THEN SavePointM(mdl, v, Ran(req), nx + 1) ELSE mdl
                 /\ RunExit(IF BatchExit(req, v) # NoExit THEN BatchExit(req, v) ELSE Exit("success", "rhoend"))
-  /\ reg' = IF pc' = "growadd" THEN [reg EXCEPT !.grow = NewDirs - 1] ELSE reg
+  /\ reg' = IF pc' = "growadd" THEN [reg EXCEPT !.grow = NewDirs - 1, !.after = "loop"] ELSE reg
   /\ UNCHANGED <<ret, restarts, phaseReq>> /\ UNCHANGED Hard /\ UNCHANGED Soft
 
 \* Trust-region step (solver.py:533-700)
@@ -220,18 +224,25 @@ TRStep ==
                                                                                      \* with new directions every iteration it replaces, and the new directions are appended
                      /\ (k = mdl.kopt => Lt(v, ObjOpt(mdl)))
                      /\ mdl' = IntoSlot(mdl, k, v1, v, Ran(req), nx + 1)
-                     /\ \/ Growing /\ pc' = (IF NewDirs > 0 THEN "growadd" ELSE "loop") /\ UNCHANGED <<exitInfo, nruns>>     \* growing: next iteration whatever the ratio (no geometry steps, no rho update)
+                     /\ \/ Growing /\ ~GrowGeom /\ pc' = (IF NewDirs > 0 THEN "growadd" ELSE "loop") /\ UNCHANGED <<exitInfo, nruns>>     \* growing: next iteration whatever the ratio (no geometry steps, no rho update)
+                        \* growing.do_geom_steps: the new directions first (if any), then the ratio split as after the growing phase
+                        \/ Growing /\ GrowGeom /\ NewDirs > 0 /\ pc' = "growadd" /\ UNCHANGED <<exitInfo, nruns>>
+                        \/ Growing /\ GrowGeom /\ NewDirs = 0 /\ UNCHANGED <<exitInfo, nruns>>
+                           /\ pc' \in (IF Lt(v, ObjOpt(mdl)) THEN {"loop", "trtailpos"} ELSE {"trtail"})
                         \* ratio > 0 (the value improved) and regression steps are configured: they come first, whatever the size of the ratio (solver.py:781-801)
-                        \/ ~Growing /\ Lt(v, ObjOpt(mdl)) /\ RegSteps > 0 /\ pc' = "regress" /\ UNCHANGED <<exitInfo, nruns>>
-                        \/ ~Growing /\ Lt(v, ObjOpt(mdl)) /\ RegSteps = 0 /\ pc' = "loop" /\ UNCHANGED <<exitInfo, nruns>>     \* successful step (ratio >= eta1)
+                        \/ ~Growing /\ Lt(v, ObjOpt(mdl)) /\ RegNow > 0 /\ pc' = "regress" /\ UNCHANGED <<exitInfo, nruns>>
+                        \/ ~Growing /\ Lt(v, ObjOpt(mdl)) /\ RegNow = 0 /\ pc' = "loop" /\ UNCHANGED <<exitInfo, nruns>>     \* successful step (ratio >= eta1)
                         \/ ~Growing /\ Lt(v, ObjOpt(mdl)) /\ RestartOrExit(Exit("slow", "slow"))
                         \/ WithFalseSuccess /\ ~Growing /\ Lt(v, ObjOpt(mdl)) /\ mdl.save.has /\ Lt(mdl.save.obj, v) /\ RunExit(Exit("false_success", "false_success"))
                         \* ratio < eta1 (includes small positive ratios: the value improved, the step still counts as unsuccessful)
                         \/ ~Growing /\ ~Lt(v, ObjOpt(mdl)) /\ pc' = "trtail" /\ UNCHANGED <<exitInfo, nruns>>
-                        \/ ~Growing /\ Lt(v, ObjOpt(mdl)) /\ RegSteps = 0 /\ pc' = "trtailpos" /\ UNCHANGED <<exitInfo, nruns>>
+                        \/ ~Growing /\ Lt(v, ObjOpt(mdl)) /\ RegNow = 0 /\ pc' = "trtailpos" /\ UNCHANGED <<exitInfo, nruns>>
   \* entering the regression phase: the furthest-point list is computed once, from the incumbent AFTER the update; one sample request for the phase
-  /\ IF pc' = "regress" THEN \E a \in {"loop", "trtailpos"} : reg' = [left |-> MinI(RegSteps, Len(mdl'.slots) - 1), done |-> {mdl'.kopt}, after |-> a, grow |-> 0]
-     ELSE IF pc' = "growadd" THEN reg' = [reg EXCEPT !.grow = NewDirs] ELSE reg' = reg
+  /\ IF pc' = "regress" THEN \E a \in {"loop", "trtailpos"} : reg' = [left |-> MinI(RegNow, Len(mdl'.slots) - 1), done |-> {mdl'.kopt}, after |-> a, grow |-> 0]
+     ELSE IF pc' = "growadd"
+          THEN \E a \in (IF ~GrowGeom THEN {"loop"} ELSE IF Lt(ObjOpt(mdl'), ObjOpt(mdl)) THEN {"loop", "trtailpos"} ELSE {"trtail"}) :
+                  reg' = [reg EXCEPT !.grow = NewDirs, !.after = a]
+          ELSE reg' = reg
   /\ phaseReq' \in (IF pc' = "regress" THEN 1..MaxSamples ELSE {phaseReq})
   /\ UNCHANGED <<ret, restarts>> /\ UNCHANGED Radii /\ UNCHANGED Hard /\ UNCHANGED Soft
 
@@ -240,7 +251,7 @@ TRStep ==
 GrowAdd ==
   /\ pc = "growadd"
   /\ IF reg.grow = 0
-     THEN pc' = "loop" /\ NoEval /\ UNCHANGED <<mdl, exitInfo, nruns, reg>>
+     THEN pc' = reg.after /\ NoEval /\ UNCHANGED <<mdl, exitInfo, nruns, reg>>
      ELSE /\ \/ Growing /\ EvalInto(Len(mdl.slots) + 1, "growadd")
              \/ ~Growing /\ \E k \in 1..Len(mdl.slots) : k # mdl.kopt /\ EvalInto(k, "growadd")
              \/ ~Growing /\ RestartOrExit(Exit("linalg", "choose")) /\ NoEval /\ UNCHANGED mdl
